@@ -252,6 +252,11 @@ impl PseudoFs {
         if ino == inode.parent {
             return;
         }
+        // Do not evict a directory that still has children: they would stay in the inode
+        // table without a parent, and a state saved afterwards could not be restored.
+        if !inode.children.load().is_empty() {
+            return;
+        }
 
         let parent = inodes.get(&inode.parent).unwrap();
         parent.remove_child(inode.clone());
